@@ -128,7 +128,7 @@ PROPS = {
         assumptions=['PRNG-seed existential not decided (no contract can express it)', 'witness traces accepted by the reference machine: by inspection of contracts/witnesses.md']),
     'C15': dict(
         title='The mutation rate is honoured at its extremes',
-        verus=['mutv', 'core'], kani_quick=U8_QUICK + ['u9_rand_scalars_total'], kani_thorough=U8_THOROUGH,
+        verus=['mutv', 'core'], kani_quick=U8_QUICK + ['u9_rand_scalars_total'], kani_thorough=U8_THOROUGH, scans=['rateone'],
         level='proof',
         technique='Kani (CBMC) function-level harnesses on the real mutator methods: rate 0.0 => None / output unchanged, rate 1.0 => Some, for every value and every entropy state of both sources',
         claim='For every built-in mutator method on integers, floats and memo indices: complete proof over the full value domain, every f64 rate and '
